@@ -4,14 +4,17 @@ Lean consensus spec, and the `need …` resolution loop with the spec driver.
 
 Nothing here decides a verdict: verdicts come from the Lean spec (`lean/Pycoin/Spec/Consensus.lean`) through the driver.
 
-SIG-ORACLE (version 1, "computed by the implementation"): the spec takes `CheckSig(sig, pubkey, scriptCode, sigversion)` as a
+SIG-ORACLE (version 2, digest independent of the implementation): the spec takes `CheckSig(sig, pubkey, scriptCode, sigversion)` as a
 parameter.  Its answers are computed here, per request of the spec, as
     lax-DER parse of the signature (own port of Core's ecdsa_signature_parse_der_lax, cross-checked against the Lean one)
   + libsecp256k1 public-key parsing rules (own code)
-  + the signature hash of the spending transaction       <- pycoin's `_signature_hash` / `_signature_for_hash_type_segwit` (property C04)
-  + ECDSA verification                                   <- pycoin's `secp256k1_generator.verify` (property C01)
-and passed to the driver as a table.  When the curve and sighash models exist in Lean, only `SigOracle.check` in
-lean/Pycoin/Driver/C03spec.lean and `check_sig` below change.
+  + the signature hash of the spending transaction       <- harness/sighashlib.py: Core's CTransactionSignatureSerializer / BIP143
+                                                            re-stated with struct + hashlib (the reference of property C04; NOT pycoin's
+                                                            _signature_hash), from the fields of the spending transaction
+  + ECDSA verification                                   <- pycoin's `secp256k1_generator.verify` (property C01), every answer recomputed
+                                                            by the Lean spec (Spec/Secp256k1.lean) from the same digest
+and passed to the driver as a table.  The generators sign with the same reference digest, so a transaction that consensus accepts is
+accepted by the spec whatever pycoin's own sighash code does; pycoin's digest is sampled beside it for the evidence file only.
 """
 from __future__ import annotations
 
@@ -20,6 +23,8 @@ import os
 
 import lib
 from lib import hx, unhx, Infra
+import txlib
+import sighashlib
 
 from pycoin.symbols.btc import network as BTC
 from pycoin.ecdsa.secp256k1 import secp256k1_generator as G
@@ -252,14 +257,38 @@ class TxInfo:
         self.tx, self.idx = tx, idx
         self.sc = tx.SolutionChecker(tx)
         self._cache: dict = {}
+        self._fields = None
+        self._amount = 0
 
     def sighash(self, script_code: bytes, hash_type: int, sv: str) -> int:
+        """the consensus signature hash (Core's SignatureHash: CTransactionSignatureSerializer for the base version, BIP143 for
+        witness v0), computed by the independent reference harness/sighashlib.py (struct/hashlib only) from the fields of the
+        spending transaction -- NOT by pycoin's _signature_hash / _signature_for_hash_type_segwit: a wrong digest in pycoin cannot
+        make a signature 'valid' on both sides"""
         k = (script_code, hash_type, sv)
         if k not in self._cache:
+            if self._fields is None:
+                self._fields = txlib.fields_of(self.tx)
+                u = self.tx.unspents[self.idx] if self.idx < len(self.tx.unspents) else None
+                self._amount = 0 if u is None else u.coin_value
             if sv == "1":
-                self._cache[k] = self.sc._signature_for_hash_type_segwit(script_code, self.idx, hash_type)
+                d = sighashlib.bip143_sighash("btc", self._fields, self.idx, script_code, self._amount, hash_type)
             else:
-                self._cache[k] = self.sc._signature_hash(script_code, self.idx, hash_type)
+                d = sighashlib.legacy_sighash("btc", self._fields, self.idx, script_code, hash_type)
+            self._cache[k] = int.from_bytes(d, "big")
+            REF_STATS[0] += 1
+            if REF_STATS[0] % REF_SAMPLE[0] == 0:
+                # evidence only (the verdict never looks at it; agreement is what property C04 checks): how often pycoin's own digest is the same
+                try:
+                    mine = (self.sc._signature_for_hash_type_segwit if sv == "1" else self.sc._signature_hash)(script_code, self.idx, hash_type)
+                except Exception:  # noqa: BLE001
+                    mine = None
+                REF_STATS[1 if mine == self._cache[k] else 2] += 1
+                if mine != self._cache[k] and sighashlib.is_complete(script_code):
+                    REF_STATS[3] += 1
+                if mine != self._cache[k] and len(REF_DIFF) < 12:
+                    REF_DIFF.append({"script_code": hx(script_code)[:200], "hash_type": hash_type, "sigversion": sv, "input": self.idx,
+                                     "script_code_complete": sighashlib.is_complete(script_code), "pycoin": None if mine is None else "%064x" % mine})
         return self._cache[k]
 
     def check_sig(self, sig: bytes, pubkey: bytes, script_code: bytes, sv: str) -> bool:
@@ -287,6 +316,9 @@ class TxInfo:
 
 
 XCHECK: dict = {}
+REF_STATS = [0, 0, 0, 0]   # [3]: different although the script code decodes completely; digests computed by the reference; of a sample: pycoin's own digest equal / different (evidence only)
+REF_SAMPLE = [1]
+REF_DIFF: list = []
 XCHECK_DONE = [0, 0]  # answers cross-checked, of which true
 XCHECK_SAMPLE = [1]
 
